@@ -61,6 +61,10 @@ func (g *c07Gen) srcTypes() []*mgen.Type {
 		mgen.Ptr(i32, 0),
 		mgen.Vec(4, false, i32),
 		mgen.Struct(false, i8, mgen.Vec(2, false, mgen.Float("float")), mgen.Arr(2, mgen.Vec(8, false, i16))),
+		// the empty struct, sized (size 0) for LLVM, alone and inside aggregates
+		mgen.Struct(false),
+		mgen.Arr(3, mgen.Struct(false)),
+		mgen.Struct(false, i8, mgen.Struct(false), mgen.Arr(2, mgen.Struct(true)), i32),
 	}
 }
 
@@ -78,7 +82,8 @@ func (g *c07Gen) walk(src *mgen.Type, vecN int, vecSc bool, constOnly bool, maxL
 			switch r.K {
 			case mgen.KStruct:
 				if len(r.Fields) == 0 {
-					return
+					// the empty struct is a sized type without anything to step into
+					return idx, cur, n, sc, forms
 				}
 				structIdx = rng.Intn(len(r.Fields))
 			case mgen.KArr:
@@ -94,9 +99,18 @@ func (g *c07Gen) walk(src *mgen.Type, vecN int, vecSc bool, constOnly bool, maxL
 			}
 		}
 		if structIdx >= 0 {
-			if n > 0 && !sc && rng.Intn(3) == 0 {
+			onlyVector := n == 0 && rng.Intn(8) == 0
+			if onlyVector {
+				// the field number as a splat vector while the base pointer and every
+				// index so far are scalars: this index alone makes the result a vector
+				n = []int{2, 4}[rng.Intn(2)]
+			}
+			if n > 0 && !sc && (onlyVector || rng.Intn(3) == 0) {
 				var es []string
 				form := "struct-splat-vector"
+				if onlyVector {
+					forms = append(forms, "struct-splat-vector-first-vector-operand")
+				}
 				if rng.Intn(5) == 0 {
 					// every element the same literal beyond 32 bits (LLVM reads each modulo 2^32)
 					lit := new(big.Int).Add(big.NewInt(int64(structIdx)), new(big.Int).Lsh(big.NewInt(int64(1+rng.Intn(3))), uint([]int{32, 33, 63, 64}[rng.Intn(4)])))
